@@ -1,6 +1,7 @@
 import PV.Common.Proto
 import PV.C06.Model
 import PV.C07.Model
+import PV.C07.Spec
 /-! Driver for C07: answers the same request lines as `harness/src/bin/pvh_c07.rs` with the model. -/
 open PV PV.C06 PV.C07
 
@@ -81,6 +82,34 @@ def handleFs (lookup : List Nat → Option Nat) (src : List Nat) : String :=
         | .ok (u, ps) =>
           if ps.isEmpty then "joined -" else "joined " ++ showPieces (if u then "u" else "-") ps
 
+/-- the REFERENCE decomposition (`PV.C07.Spec`) of the same source, printed in the same form;
+    used for spec validation against CPython and for sampling the partial theorem -/
+def specPieces (lookup : List Nat → Option Nat) (strict : Bool) : List StrTok → Option (List Piece)
+  | [] => some []
+  | t :: ts =>
+    let here : Option (List Piece) :=
+      if t.kind.isAnyFString then Spec.split lookup strict t.kind.isRaw t.body t.bodyLoc
+      else match PV.C06.Spec.decode lookup false t.kind.isRaw t.body with
+        | some s => some [.lit (s.map PV.C06.Spec.fffd)]
+        | none => none
+    match here, specPieces lookup strict ts with
+    | some a, some b => some (a ++ b)
+    | _, _ => none
+
+def handleSpec (lookup : List Nat → Option Nat) (strict : Bool) (src : List Nat) : String :=
+  match lexLits (src.length + 1) src 0 with
+  | some (.ok toks) =>
+    match allStrings toks with
+    | some (t0 :: ts) =>
+      if (t0 :: ts).any (·.kind.isAnyBytes) then "unsupported"
+      else match specPieces lookup strict (t0 :: ts) with
+        | none => "reject"
+        | some ps =>
+          let ps := Spec.merge ps
+          if ps.isEmpty then "joined -" else "joined " ++ showPieces (if t0.kind.isUnicode then "u" else "-") ps
+    | _ => "unsupported"
+  | _ => "unsupported"
+
 def decodeSrc (s : String) : Option (List Nat) :=
   match unhex s with
   | some bs => utf8Decode bs
@@ -95,6 +124,16 @@ def handle : List String → String
         | none => fun _ => none
       handleFs lookup cs
     | none => "bad-request"
+  | op :: s :: args =>
+    if op == "spec" || op == "specd" then
+      match decodeSrc s with
+      | some cs =>
+        let lookup := match args.find? (fun a => a.startsWith "n=") with
+          | some a => parseNames a
+          | none => fun _ => none
+        handleSpec lookup (op == "specd") cs
+      | none => "bad-request"
+    else "bad-request"
   | _ => "bad-request"
 
 def main : IO Unit := protoLoop handle
